@@ -65,6 +65,7 @@ def run(run, model):
     run.do(twins.colour, model)
     from . import effects
     run.do(twins.body_await, model)
+    run.do(twins.coroutine_results_tested, model)
     run.do(effects.frozen_after_init, model, "C13.no-cached-decision")
     run.do(inv.self_rule, model, "C13.sync-reject-invariant")
     run.do(parity, model)
@@ -76,3 +77,4 @@ def run(run, model):
     run.minimum("C13.colour", 2)
     run.minimum("C13.parity", 20)
     run.minimum("C13.body-await", 2)
+    run.minimum("C13.coroutine-result-tested", 6)
